@@ -139,4 +139,7 @@ func c26Filter(nValues int, withRe2 bool) {
 func Harness_C26_filter_1value()     { c26Filter(1, false) }
 func Harness_C26_filter_2values()    { c26Filter(2, false) }
 func Harness_C26_filter_re2()        { c26Filter(1, true) }
+
+// a filter that consists of a regular expression only (no values): it is still written
+func Harness_C26_filter_re2_only() { c26Filter(0, true) }
 func Harness_C26_filter_3values()    { c26Filter(3, false) }
